@@ -100,36 +100,37 @@ pub trait SemApi: Sized {
     fn destroy(self);
 }
 
-pub struct Borrowed<M: RawMutex + 'static>(&'static GenericSemaphore<M>);
+pub struct Borrowed<M: RawMutex + 'static>(crate::util::Leaked<GenericSemaphore<M>>);
 
 impl<M: RawMutex + 'static> SemApi for Borrowed<M> {
     type Fut = GenericSemaphoreAcquireFuture<'static, M>;
     type Rel = GenericSemaphoreReleaser<'static, M>;
     const SHARED: bool = false;
     fn new(fair: bool, permits: usize) -> Self {
-        Borrowed(Box::leak(Box::new(GenericSemaphore::new(fair, permits))))
+        let owner = crate::util::Leaked::new(GenericSemaphore::new(fair, permits));
+        Borrowed(owner)
     }
     fn acquire(&self, n: usize) -> Self::Fut {
-        self.0.acquire(n)
+        self.0.get().acquire(n)
     }
     fn try_acquire(&self, n: usize) -> Option<Self::Rel> {
-        self.0.try_acquire(n)
+        self.0.get().try_acquire(n)
     }
     fn release(&self, n: usize) {
-        self.0.release(n)
+        self.0.get().release(n)
     }
     fn permits(&self) -> usize {
-        self.0.permits()
+        self.0.get().permits()
     }
     fn inspect(&self, v: &mut dyn FnMut(Visit) -> bool) {
-        self.0.verif_inspect(v)
+        self.0.get().verif_inspect(v)
     }
     fn disarm(r: &mut Self::Rel) -> usize {
         r.disarm()
     }
     fn destroy(self) {
         // Safety: all futures and releasers have been dropped
-        unsafe { drop(Box::from_raw(self.0 as *const _ as *mut GenericSemaphore<M>)) }
+        unsafe { self.0.reclaim() }
     }
 }
 
@@ -447,7 +448,7 @@ impl<A: SemApi> SemInner<A> {
         }
         self.post(ctx);
         let empty = self.view.queues[0].is_empty() && self.view.prim.head == 0 && self.view.prim.tail == 0;
-        ctx.check("C01", "queue-empty-after-all-futures-dropped", true, empty, || "wait queue not empty at the end of the history".into());
+        ctx.check("C01", "queue-empty-after-all-futures-dropped", crate::slots::inspect_on(), empty, || "wait queue not empty at the end of the history".into());
         self.sem.destroy();
     }
 }
